@@ -147,13 +147,15 @@ def CEILING(
         return ceiling
 
     quantize_multiplier = str(significance % 1)
+    # The quantized value can have more digits than the default context allows.
+    context = decimal.Context(prec=700)
 
     # If number is negative, and significance is negative, the value is
     # rounded down, away from zero.
     if number < 0 and significance < 0:
         result = decimal.Decimal(ceiling)
         result = result.quantize(decimal.Decimal(quantize_multiplier),
-                                 rounding=decimal.ROUND_DOWN)
+                                 rounding=decimal.ROUND_DOWN, context=context)
         return float(result)
 
     # If number is negative, and significance is positive, the value is
@@ -161,14 +163,14 @@ def CEILING(
     if number < 0 < significance:
         result = decimal.Decimal(ceiling)
         result = result.quantize(decimal.Decimal(quantize_multiplier),
-                                 rounding=decimal.ROUND_UP)
+                                 rounding=decimal.ROUND_UP, context=context)
         return float(result)
 
     # Regardless of the sign of number, a value is rounded up when adjusted
     # away from zero.
     result = decimal.Decimal(ceiling)
     result = result.quantize(decimal.Decimal(quantize_multiplier),
-                             rounding=decimal.ROUND_UP)
+                             rounding=decimal.ROUND_UP, context=context)
     return float(result)
 
 
